@@ -247,7 +247,10 @@ pub fn run(out: &mut Out, seed: u64, thorough: bool, scn: Option<&str>) {
     history(out, &mut rng, &pool, 0, "disabled_run", Some((Cfg::Disable, LA3, 6)));
     // A, then B through encap / encap_ext as a complete packet or as a first fragment (+ its continuation), then A
     // again (and B again): the remembered label must follow what was actually put on the wire
-    for (a, b) in [(LA6, LB6), (LA6, Label::Broadcast), (LA3, LA6), (LB3, LA3)] {
+    // (the last pairs: a 3-byte label and the 6-byte labels that contain the same bytes after / before three zeros)
+    let l6pre = Label::SixBytesLabel([0, 0, 0, 0x0A, 0x0B, 0x0C]);
+    let l6post = Label::SixBytesLabel([0x0A, 0x0B, 0x0C, 0, 0, 0]);
+    for (a, b) in [(LA6, LB6), (LA6, Label::Broadcast), (LA3, LA6), (LB3, LA3), (LA3, l6pre), (l6pre, LA3), (LA3, l6post), (l6post, LA3)] {
         for use_ext in [false, true] {
             for fragmented in [false, true] {
                 let mgr = TableMgr { known: vec![(0x0042, false, 3)] };
@@ -281,6 +284,49 @@ pub fn run(out: &mut Out, seed: u64, thorough: bool, scn: Option<&str>) {
                 }
                 for lab in [b, a, a] {
                     let t = ev_encap(out, &mut enc, &pool.small[2], 1, lab, 0x0800, 64, if use_ext { Some(&exts) } else { None }, None);
+                    feed_tx(out, &mut rx, &t);
+                }
+                rx.ev_drain(out);
+            }
+        }
+    }
+    // a signalling PDU (the type field is a final mandatory extension, through encap_ext or plain encap) with
+    // another label, or for everybody, between two packets to the same label: it is a start packet like any other
+    for b in [LB6, Label::Broadcast, LA3] {
+        for via_ext in [true, false] {
+            for fragmented in [false, true] {
+                let mgr = TableMgr { known: vec![(0x0046, true, 0), (0x0081, true, 0)] };
+                let mut rx = mk_rx(out, "labels", "signalling_between", 3, 64, 3, mgr, true);
+                let mut enc = Encapsulator::new(DefaultCrc {});
+                let exts = [ExtSpec { id: 0x0046, data: vec![] }];
+                let t = ev_encap(out, &mut enc, &pool.small[0], 1, LA6, 0x0800, 64, None, None);
+                feed_tx(out, &mut rx, &t);
+                let buf = if fragmented { 30 } else { 100 };
+                let t = if via_ext {
+                    ev_encap(out, &mut enc, &pool.mid, 12, b, 0x0046, buf, Some(&exts), None)
+                } else {
+                    ev_encap(out, &mut enc, &pool.mid, 12, b, 0x0081, buf, None, None)
+                };
+                feed_tx(out, &mut rx, &t);
+                let mut ctx = match &t.res {
+                    Some(Ok(EncapStatus::FragmentedPkt(_, c))) => Some(*c),
+                    _ => None,
+                };
+                let mut guard = 0;
+                while let Some(c) = ctx {
+                    guard += 1;
+                    if guard > 8 {
+                        break;
+                    }
+                    let t = ev_encap_frag(out, &enc, &pool.mid, &c, 40);
+                    ctx = match &t.res {
+                        Some(Ok(EncapStatus::FragmentedPkt(_, c2))) => Some(*c2),
+                        _ => None,
+                    };
+                    feed_tx(out, &mut rx, &t);
+                }
+                for lab in [LA6, LA6, b, LA6] {
+                    let t = ev_encap(out, &mut enc, &pool.small[2], 1, lab, 0x0800, 64, None, None);
                     feed_tx(out, &mut rx, &t);
                 }
                 rx.ev_drain(out);
